@@ -303,6 +303,11 @@ func (p *parser) newForInStmt(inExpr *ast.Node, body *ast.BlockStmt, forTk Item)
 		return nil
 	}
 
+	if expr.LHS == nil || expr.RHS == nil {
+		p.addParseErrf(p.yyParser.lval.item.PositionRange(), "invalid for-in expression")
+		return nil
+	}
+
 	switch expr.LHS.NodeType { //nolint:exhaustive
 	case ast.TypeIdentifier:
 	default:
@@ -372,6 +377,11 @@ func (p *parser) newIfElem(ifTk Item, condition *ast.Node, block *ast.BlockStmt)
 }
 
 func (p *parser) newUnaryExpr(op Item, r *ast.Node) *ast.Node {
+	if r == nil {
+		p.addParseErrf(p.yyParser.lval.item.PositionRange(), "invalid operand of unary operator")
+		return nil
+	}
+
 	switch op.Typ {
 	case ADD, SUB:
 		// 负数
@@ -426,6 +436,11 @@ func (p *parser) newConditionalExpr(l, r *ast.Node, op Item) *ast.Node {
 }
 
 func (p *parser) newArithmeticExpr(l, r *ast.Node, op Item) *ast.Node {
+	if r == nil {
+		p.addParseErrf(p.yyParser.lval.item.PositionRange(), "invalid right operand of arithmetic operator")
+		return nil
+	}
+
 	switch op.Typ {
 	case DIV, MOD: // div 0 or mod 0
 		switch r.NodeType { //nolint:exhaustive
